@@ -3,11 +3,23 @@ package header
 import (
 	"net/textproto"
 	"sort"
+	"strings"
 )
 
 type KeyValues struct {
 	Key    string
 	Values []string
+}
+
+// canonicalKey is the form in which keys are matched against the order list:
+// header names case-insensitively through their canonical MIME form, and
+// pseudo-header names such as ":path", which CanonicalMIMEHeaderKey leaves
+// untouched because of the colon, through their lower-case form.
+func canonicalKey(key string) string {
+	if strings.HasPrefix(key, ":") {
+		return strings.ToLower(key)
+	}
+	return textproto.CanonicalMIMEHeaderKey(key)
 }
 
 type sorter struct {
@@ -22,7 +34,7 @@ func (s *sorter) Swap(i, j int) { s.kvs[i], s.kvs[j] = s.kvs[j], s.kvs[i] }
 // rank is the position of the i-th key in the order list; keys that are
 // not listed rank after all listed ones.
 func (s *sorter) rank(i int) int {
-	if index, ok := s.order[textproto.CanonicalMIMEHeaderKey(s.kvs[i].Key)]; ok {
+	if index, ok := s.order[canonicalKey(s.kvs[i].Key)]; ok {
 		return index
 	}
 	return s.unlisted
@@ -38,7 +50,7 @@ func (s *sorter) Less(i, j int) bool {
 func SortKeyValues(kvs []KeyValues, orderedKeys []string) {
 	order := make(map[string]int)
 	for i, key := range orderedKeys {
-		order[textproto.CanonicalMIMEHeaderKey(key)] = i
+		order[canonicalKey(key)] = i
 	}
 	s := &sorter{
 		order:    order,
